@@ -285,8 +285,11 @@ class Machine:
                 except TranslationError:
                     # a local the front end has no declaration for (renamed or newly introduced): its abstract type is
                     # inferred from the expression it is bound to, evaluated dry over the locals declared so far
-                    if not (isinstance(sub, ast.Assign) and isinstance(tg, ast.Name) and self.infer_local(thread, frame, tg.id, sub.value)):
-                        raise
+                    if isinstance(sub, ast.Assign) and isinstance(tg, ast.Name) and self.infer_local(thread, frame, tg.id, sub.value):
+                        continue
+                    if isinstance(sub, ast.Assign) and isinstance(tg, (ast.Tuple, ast.List)) and self.infer_unpacked(thread, frame, tg, sub.value):
+                        continue
+                    raise
         entry = self.build_block(thread, fdef.body, frame, next_idx, {"break": None, "continue": None, "return": next_idx},
                                  handlers or [], list(locks), qual)
         if not copies:
@@ -296,6 +299,31 @@ class Machine:
         en.succ = entry
         en.exc = list(handlers or [])
         return en.idx
+
+    def infer_unpacked(self, thread, frame, target, value_ast):
+        """a, b = <tuple-valued expression>: the undeclared names among the targets get the kinds of the members"""
+        try:
+            k = self.kind_of(thread, value_ast, frame)
+        except (TranslationError, KeyError, AttributeError, TypeError):
+            return False
+        if k.kind != "tuple" or len(k.items) != len(target.elts):
+            return False
+        for e, item in zip(target.elts, k.items):
+            if not isinstance(e, ast.Name):
+                return False
+            if e.id in frame.locals or e.id in frame.tuples:
+                continue
+            if e.id in self.dom.local_types:
+                self.local_key(thread, frame, e.id)
+            elif item.kind in ("obj", "const"):
+                self.local_key_typed(thread, frame, e.id, ("static", None))
+            elif item.kind in ("ref", "set"):
+                self.local_key_typed(thread, frame, e.id, (item.kind, item.cls))
+            elif item.kind in ("bool", "int"):
+                self.local_key_typed(thread, frame, e.id, (item.kind, None))
+            else:
+                return False
+        return True
 
     def infer_local(self, thread, frame, name, value_ast):
         try:
